@@ -18,6 +18,8 @@ THEOREMS = [
     "Qentem.Props.C11.identifies17_zero",
     "Qentem.Props.C11.identifies9_zero",
     "Qentem.Props.C11.roundtrip_small_int",
+    "Qentem.Props.C11.roundtrip17_integers_parser",
+    "Qentem.Props.C11.roundtrip17_of_gap",
     "Qentem.Props.C11.identifies_boundary_instances",
 ]
 OPEN = [
